@@ -93,16 +93,16 @@ func hasPrefixKey(x *harness.Run, prefix string) bool {
 
 // Key builders (Appendix C of DESIGN.md; verified against dumps).
 func kBalance(a keys.Address, cur string) string { return "b_" + a.String() + "_" + cur }
-func kValidator(a keys.Address) string            { return "v_" + string(a) }
-func kStakeTotal(v keys.Address) string           { return "st__t_" + v.String() }
-func kStakeBound(s keys.Address) string           { return "st__d_b_" + s.String() }
-func kStatus(v keys.Address) string               { return "es__vss_" + v.String() }
-func kFrozen(v keys.Address) string               { return "es__ssvk_" + v.String() }
-func kRequest(id string) string                   { return "es__ark_" + id }
-func kDelegActive(d keys.Address) string          { return "deleg_a_" + d.String() }
-func kDelegRewards(d keys.Address) string         { return "delegRwz_balance_" + d.String() }
-func kRewardBalance(v keys.Address) string        { return "rwcum_balance_" + v.String() }
-func kRewardWithdrawn(v keys.Address) string      { return "rwcum_withdrawn_" + v.String() }
+func kValidator(a keys.Address) string           { return "v_" + string(a) }
+func kStakeTotal(v keys.Address) string          { return "st__t_" + v.String() }
+func kStakeBound(s keys.Address) string          { return "st__d_b_" + s.String() }
+func kStatus(v keys.Address) string              { return "es__vss_" + v.String() }
+func kFrozen(v keys.Address) string              { return "es__ssvk_" + v.String() }
+func kRequest(id string) string                  { return "es__ark_" + id }
+func kDelegActive(d keys.Address) string         { return "deleg_a_" + d.String() }
+func kDelegRewards(d keys.Address) string        { return "delegRwz_balance_" + d.String() }
+func kRewardBalance(v keys.Address) string       { return "rwcum_balance_" + v.String() }
+func kRewardWithdrawn(v keys.Address) string     { return "rwcum_withdrawn_" + v.String() }
 
 var (
 	delegationPool = keys.Address("00000000000000000001")
@@ -194,7 +194,9 @@ func catalogue() []entry {
 		1, Expect{Touched: []string{"b_"}})
 	add(action.SEND, "send-to-fresh-address", defaultWorld("send-fresh"),
 		func(w *W) []B { return empties(1) },
-		func(w *W) *T { return Send(w.Users[0], harness.NewAccount("fresh-recipient").Addr, OLT(7), "send-fresh-1") },
+		func(w *W) *T {
+			return Send(w.Users[0], harness.NewAccount("fresh-recipient").Addr, OLT(7), "send-fresh-1")
+		},
 		1, Expect{
 			Touched: []string{kBalance(harness.NewAccount("fresh-recipient").Addr, "OLT")},
 			Final: func(x *harness.Run) error {
@@ -219,7 +221,9 @@ func catalogue() []entry {
 	}
 	// a donation to the delegation pool dilutes the delegators' share of the block rewards
 	add(action.SENDPOOL, "sendpool-delegation-dilutes", defaultWorld("sendpool-deleg"),
-		func(w *W) []B { return seq(empties(1), one(blk(Delegate(w.Users[0], OLT(1000000), "d-1"))), empties(1)) },
+		func(w *W) []B {
+			return seq(empties(1), one(blk(Delegate(w.Users[0], OLT(1000000), "d-1"))), empties(1))
+		},
 		func(w *W) *T { return SendPool(w.Users[1], "DelegationPool", OLT(500000), "sp-deleg") },
 		3, Expect{Touched: []string{kBalance(delegationPool, "OLT")}})
 
@@ -270,6 +274,24 @@ func catalogue() []entry {
 			Final: func(x *harness.Run) error {
 				v := x.W.Vals[2]
 				return firstErr(wantTM(x, v, true), wantValue(x, kStakeTotal(v.Val.Addr), `"800000"`))
+			},
+		})
+
+	// The only reachable way into the "update stake address" branch: the old stake address must be clean
+	// (nothing locked, maturing or bounded), i.e. the record has zero stake - which exists for one block
+	// only (here created by a zero stake). As implemented the record is then deleted by EndBlock of the
+	// target's block (the decision uses the previous version's power 0) although 600000 are now staked.
+	add(action.STAKE, "stake-change-stake-address-on-zero-power-record", defaultWorld("stake-addr"),
+		func(w *W) []B {
+			return seq(empties(2), one(blk(Stake(w.Vals[3], w.Vals[3].Stake, WholeOLT(0), "sa-zero"))))
+		},
+		func(w *W) *T { return Stake(w.Vals[3], w.Users[1], WholeOLT(600000), "sa-target") },
+		3, Expect{
+			Touched: []string{"st__t_", "st__e_", "st__d_e_", "b_"},
+			Final: func(x *harness.Run) error {
+				v := x.W.Vals[3]
+				return firstErr(wantValue(x, kStakeTotal(v.Val.Addr), `"600000"`),
+					wantValue(x, "st__e_"+v.Val.Addr.String()+"_"+x.W.Users[1].Addr.String(), `"600000"`))
 			},
 		})
 
@@ -356,7 +378,9 @@ func catalogue() []entry {
 
 	// ------------------------------------------------------------------ NETWORK_UNDELEGATE
 	add(action.NETWORK_UNDELEGATE, "undelegate-part-matures", defaultWorld("undelegate"),
-		func(w *W) []B { return seq(empties(1), one(blk(Delegate(w.Users[0], OLT(1000000), "ud-d"))), empties(1)) },
+		func(w *W) []B {
+			return seq(empties(1), one(blk(Delegate(w.Users[0], OLT(1000000), "ud-d"))), empties(1))
+		},
 		func(w *W) *T { return Undelegate(w.Users[0], OLT(400000), "ud-1") },
 		5, Expect{
 			Touched: []string{"deleg_a_", "deleg_p_", kBalance(delegationPool, "OLT")},
@@ -366,7 +390,9 @@ func catalogue() []entry {
 			},
 		})
 	add(action.NETWORK_UNDELEGATE, "undelegate-all", defaultWorld("undelegate-all"),
-		func(w *W) []B { return seq(empties(1), one(blk(Delegate(w.Users[0], OLT(1000000), "uda-d"))), empties(1)) },
+		func(w *W) []B {
+			return seq(empties(1), one(blk(Delegate(w.Users[0], OLT(1000000), "uda-d"))), empties(1))
+		},
 		func(w *W) *T { return Undelegate(w.Users[0], OLT(1000000), "uda-1") },
 		5, Expect{
 			Touched: []string{"deleg_a_", "deleg_p_", kBalance(delegationPool, "OLT")},
@@ -381,7 +407,7 @@ func catalogue() []entry {
 			return seq(empties(1), one(blk(Delegate(w.Users[0], OLT(1000000), tag+"-d"))), empties(3))
 		}
 	}
-	tenth := Coin("OLT", harness.Amt("100000000000000000")) // 0.1 OLT; about 0.04 OLT accrue per block
+	tenth := Coin("OLT", harness.Amt("50000000000000000")) // 0.05 OLT; about 0.04 OLT accrue per block (0.12 by height 5)
 	add(action.REWARDS_WITHDRAW_NETWORK_DELEGATE, "deleg-rewards-withdraw-matures", defaultWorld("deleg-rw"),
 		delegPrefix("drw"),
 		func(w *W) *T { return DelegWithdrawRewards(w.Users[0], tenth, "drw-1") },
@@ -398,9 +424,10 @@ func catalogue() []entry {
 		2, Expect{Touched: []string{"delegRwz_balance_", "deleg_a_", kBalance(delegationPool, "OLT")}})
 
 	// ------------------------------------------------------------------ WITHDRAW_REWARD
-	// default world: V1's matured balance passes one whole OLT at height 10
+	// default world: V1 earns about 0.17 OLT per block; the chunk of interval n-2 matures at every even
+	// height; the matured balance passes one whole OLT (the unit of this kind) at height 10 (1.33 at 12)
 	add(action.WITHDRAW_REWARD, "withdraw-reward-after-intervals", defaultWorld("wreward"),
-		func(w *W) []B { return empties(10) },
+		func(w *W) []B { return empties(12) },
 		func(w *W) *T { return WithdrawReward(w.Vals[0].Val.Addr, w.Vals[0].Stake, WholeOLT(1), "wr-1") },
 		2, Expect{Touched: []string{"rwcum_balance_", "rwcum_withdrawn_", kBalance(rewardsPool, "OLT")}})
 	add(action.WITHDRAW_REWARD, "withdraw-reward-rich-world", richRewardsWorld("wreward-rich"),
@@ -468,7 +495,7 @@ func catalogue() []entry {
 				return firstErr(
 					wantKey(x, kRequest(reqID), false),
 					wantContains(x, kFrozen(v.Val.Addr), `"Status":2`),
-					wantValue(x, kStakeTotal(v.Val.Addr), `"700000"`),               // 30 % of 1 000 000 cut
+					wantValue(x, kStakeTotal(v.Val.Addr), `"700000"`),                       // 30 % of 1 000 000 cut
 					wantValue(x, kBalance(bountyPool, "OLT"), `"150000000000000000000000"`), // half of the cut
 					wantContains(x, kStatus(v.Val.Addr), `"isActive":false`),
 					wantTM(x, v, false))
@@ -498,8 +525,12 @@ func catalogue() []entry {
 			Touched: []string{"es__ssvk_"},
 			Final: func(x *harness.Run) error {
 				v := x.W.Vals[2]
+				_, tv := x.C.Vals.GetByAddress(v.Val.TM.PubKey().Address())
+				if tv == nil || tv.VotingPower != 700000 {
+					return fmt.Errorf("V3 Tendermint power after release %v, want 700000", tv)
+				}
 				return firstErr(wantContains(x, kFrozen(v.Val.Addr), `"ReleaseHeight":8`),
-					wantContains(x, kStatus(v.Val.Addr), `"isActive":true`), wantTM(x, v, true))
+					wantContains(x, kStatus(v.Val.Addr), `"isActive":true`))
 			},
 		})
 	add(action.RELEASE, "release-after-missed-votes", missedVotesWorld("release-missed"),
